@@ -15,6 +15,10 @@ fail closed: any syntax node outside its fragment is a GenError) into coq/Gen/C0
 Proofs/C03_SourceEq.v - compiled on every run - proves that every translated function equals the model's function for
 ALL arguments (the rejected ones included).  The sampled correspondence above therefore no longer validates the hand
 model against the code (that is a theorem now); it validates the translator's reading of python/numpy float semantics.
+Tie (N, source, chop.py): harness/props/C03_translate_chop.py translates the bodies of Chop.__post_init__, Chop.invert and
+Chop.copy_preserving (state passing over the record of the seven dataclass fields, fail closed) into
+coq/Gen/C03/ChopSource.v on every run; Proofs/C03_ChopSourceEq.v - compiled on every run - proves them equal, for all
+field values, to the record functions of Model/C03_Chop.v, and those to post_init / invert of Model/C03_Relations.v.
 Direct oracle (independent of Coq): from (count, total_expansion) rebuild blockMesh's progression and test the
 law of the property statement; also used as the search engine.
 """
@@ -27,6 +31,7 @@ from decimal import Decimal, getcontext
 import core
 from core import GenError, CorrResult, Prop
 from props import C03_translate
+from props import C03_translate_chop
 
 getcontext().prec = 60
 
@@ -965,9 +970,10 @@ def canon(L, kw):
 class C03(Prop):
     pid = "C03"
     title = "Cell count and expansion ratio obey the geometric-progression law"
-    prebuilt = ["Base/Vec3.v", "Model/C03_Relations.v", "Proofs/C03_GeomSeries.v", "Proofs/C03_Relations.v",
+    prebuilt = ["Base/Vec3.v", "Model/C03_Relations.v", "Model/C03_Chop.v", "Proofs/C03_GeomSeries.v", "Proofs/C03_Relations.v",
                 "Proofs/C03_Plans.v", "Proofs/C03_Invert.v", "Proofs/C03_InvertPlans.v", "Proofs/C03_Corr.v"]
-    gen_dependent_files = ["Gen/C03/RelTable.v", "Gen/C03/Source.v", "Proofs/C03_SourceEq.v"]
+    gen_dependent_files = ["Gen/C03/RelTable.v", "Gen/C03/Source.v", "Proofs/C03_SourceEq.v",
+                           "Gen/C03/ChopSource.v", "Proofs/C03_ChopSourceEq.v"]
     property_files = ["Properties/C03.v"]
     trusted = [
         "tabulation: ChopRelation.get_possible_combinations() (names and iteration order) and constants.TOL",
@@ -980,6 +986,14 @@ class C03(Prop):
         "int() truncates; x ** y with a real exponent is exp(y ln x), exact for x > 0 only (the property quantifies over "
         "positive ratios); _validate_count is read through its condition string and probed against that reading on a "
         "grid; the functions ChopRelation calls are checked to be the parsed ones (file, name, line)",
+        "the C03 chop translator harness/props/C03_translate_chop.py (chop.py: Chop.__post_init__, Chop.invert, "
+        "Chop.copy_preserving -> Gen/C03/ChopSource.v; Proofs/C03_ChopSourceEq.v proves source = Model/C03_Chop.v for all "
+        "field values on every run).  Its fragment: " + C03_translate_chop.FRAGMENT + ".  Its reading: the methods are "
+        "state-passing functions over the record of the seven declared dataclass fields (declaration and run-time fields "
+        "checked against the record); Optional numbers are option R, count is the python number as passed and int() "
+        "truncates; dataclasses.asdict + Chop(**args) is a field-wise copy followed by the translated __post_init__; "
+        "self.results is a parameter with all keys present; aliasing (a copy sharing state with the original) is not "
+        "expressible and stays with the sampled oracle",
         "the sampled real-valued correspondence (generated inputs incl. branch and integer neighbourhoods, each case "
         "decided inside Coq by the interval tactic on exact dyadic literals) validates this reading of binary64 / numpy "
         "semantics - no longer the hand model, which is proved equal to the translated source",
@@ -1024,6 +1038,12 @@ class C03(Prop):
             raise GenError("the translated get_* functions %r are not the relations of the table %r" % (
                 sorted(k for (_n, _c, _b, k) in translated), sorted(table)))
         ctx.write_gen("Source", text)
+        # the field logic of chop.py: __post_init__, invert, copy_preserving -> Gallina, proved equal to Model/C03_Chop.v
+        ctext, ctranslated, ctr = C03_translate_chop.translate()
+        import classy_blocks.grading.chop as chop_mod
+        C03_translate_chop.tie_to_runtime(ctr, chop_mod.Chop)
+        ctx.write_gen("ChopSource", ctext)
+        ctx.log("S1: chop.py translated: %s" % ", ".join("Chop.%s (line %d)" % (n, ln) for (n, _c, ln) in ctranslated))
         ctx.log("S1: relations.py translated: %d relations (%d with brentq), %d helpers" % (
             len(translated), sum(1 for t in translated if t[2]), len(tr.helpers)))
 
